@@ -326,6 +326,41 @@ def rule_r1b(facts, rep, rid="C06-R1b"):
     rep.floor(rid, "title lookups", n, 2)
 
 
+def rule_r6(facts, rep, rid="C06-R6"):
+    """Sibling printers agree on wiki links: each of them writes `[[target]]` / `[[target|text]]` itself on a branch decided by the link's kind,
+    before any generic `[text](url)` path (the cmark serializer used for table cells prints a Tag::Link of wiki kind as an inline link)."""
+    for name in ("GraphInline::to_markdown", "MarkdownWriter::inlines_to_events"):
+        f = facts.fn(name)
+        rep.saw_fn(f)
+        c = ctx(f)
+        for variant in ("WikiLink", "WikiLinkPiped"):
+            key = "%s|wiki-syntax-for:%s" % (f.def_, variant)
+            okv = None
+            for x in fb.walk(f.body):
+                # a string built from a template that opens with `[[` ...
+                lits = [y for y in fb.walk(x) if y.get("k") == "lit" and str(y.get("v", "")).startswith(("bs:", "s:")) and "[[" in str(y.get("v", ""))] if x.get("k") in ("call", "block") and "format" in (x.get("m") or "") else []
+                if not lits:
+                    continue
+                # ... on a branch where the link's kind is known to be `variant` (if `t == LinkType::V`, or a match arm on V)
+                known = False
+                for e, pol in facts_at(c, x):
+                    if pol and e.get("k") == "binary" and e.get("op") == "==" and any(
+                            y.get("k") == "path" and fb.norm(y.get("def") or "").endswith("LinkType::" + variant) for y in fb.walk(e)):
+                        known = True
+                from .common import controlling_tests
+                for e, pol in controlling_tests(c, x):
+                    if pol == "pat:" + variant:
+                        known = True
+                if known:
+                    okv = x
+                    break
+            if okv is not None:
+                rep.ok(rid, key, "written as `[[..]]` on the branch for LinkType::%s" % variant, loc(f, okv))
+            else:
+                rep.violation(rid, key, "%s has no branch that writes a %s in wiki syntax: it goes down the generic link path and comes out as `[text](target)` (a bare wiki link as "
+                              "`[](target)`) - the link changes its kind" % (fb.last_seg(f.def_), variant), f.loc)
+
+
 def run(facts, rep, tier):
     rep.rule("C06-R1", "Kind->text table agreement across the three sites that choose a link's text (GraphInline::normalize, "
              "GraphNodePointer::node, Projector::project_node): Regular = title with fallback to the original, WikiLink = empty, "
@@ -351,6 +386,8 @@ def run(facts, rep, tier):
     c15.rule_r3(facts, rep, "C06-R4b")
     rep.rule("C06-R5", "Links keep their kind: both link printers choose the autolink form only under `!is_ref && text == url`.")
     rule_r5(facts, rep)
+    rep.rule("C06-R6", "Wiki links keep their kind in both printers (paragraph text and table cells): each has a branch per wiki kind that writes `[[..]]` itself.")
+    rule_r6(facts, rep)
 
 
 class _MultiOnly:
